@@ -238,7 +238,8 @@ class YAML(Filetype):
     def build_tree_handling_errors(self, path: str, options: Optional[BuildOptions] = None) -> Union[str, TreeNode]:
         try:
             return self.build_tree(path=path, options=options)
-        except YAMLError as ye:
+        except (YAMLError, ValueError) as ye:
+            # ValueError: valid YAML holding a value with no node type (e.g., a timestamp or a set)
             return f'Error parsing {os.path.basename(path)}: {ye})'
 
     def get_default_formatter(self) -> YAMLFormatter:
